@@ -47,6 +47,10 @@ for (pn, rp, k1, k2) in [(2, 0, 1, 3), (2, 0, 3, 3), (2, 1, 3, 3), (2, 1, 3, 1),
       ["PC_PN %d" % pn, "PC_RP %d" % rp, "PC_N 2", "PC_K1 %d" % k1, "PC_K2 %d" % k2],
       "closing pipe is %s, carries two contexts (%s; %s); %d other ready pipe(s)" % (PNTXT[pn], KTXT[k1], KTXT[k2], rp),
       ["C12", "C04", "C03", "C15", "C02"], bound=PC_B)
+for u in units:
+    if u["name"] in ("req0_pipe_close_R1_R1_pn2_rp1", "req0_pipe_close_R1_N2_pn2_rp1"):
+        u["defines"] += ["PC_RV1 60000", "PC_RV2 %d" % (60000 if "R1_R1" in u["name"] else -1)]
+        u["bound"] += "; resend times fixed to 60000 ms (enabled) / -1 = NNG_DURATION_INFINITE (disabled) in this shape (symbolic in the one-context shapes)"
 
 exec(open(os.path.join(HERE, "mkspec_more.py")).read()) if os.path.exists(os.path.join(HERE, "mkspec_more.py")) else None
 
